@@ -399,3 +399,43 @@ def none_of(body, pats):
                 out.append(c)
                 break
     return out
+
+
+def read_body_loop_exits(F, R, rule, tracer):
+    """read_body's frame loop may be left only at end of stream (None from frame().await) or towards an Err return.
+    Any other exit truncates the body for some chunking (the rest of the request is never parsed)."""
+    rb = F.one(r"^jsonrpsee_core::http_helpers::read_body::\{closure#0\}$")
+    R.fn(rb)
+    frames = rb.calls_to(r"^http_body_util::BodyExt::frame$")
+    if len(frames) != 1:
+        R.anchor_lost(rule, "the single BodyExt::frame call of read_body (found %d)" % len(frames))
+        return
+    fc = frames[0]
+    vl, rblk = awaited_value_local(rb, fc)
+    if vl is None:
+        R.anchor_lost(rule, "awaited frame() result in read_body")
+        return
+    none_t = None
+    for sb, arms, other in flow.switch_on(rb, vl):
+        none_t = other if "1" in arms and "0" not in arms else arms.get("0")
+    if none_t is None:
+        R.anchor_lost(rule, "match on frame().await in read_body")
+        return
+    loop = {b for b in rb.reachable if rb.can_reach(fc.bb, b) and rb.can_reach(b, fc.bb)}
+    ok_blocks = []
+    for bi, blk in enumerate(rb.blocks):
+        for st in blk["st"]:
+            if st["s"] == "assign" and st["pl"]["l"] == 0 and not st["pl"].get("p") and st["rv"]["k"] == "agg" and st["rv"].get("variant") == "Ok":
+                ok_blocks.append(bi)
+    bad = []
+    for u in loop:
+        for v in rb.succ[u]:
+            if v in loop:
+                continue
+            if v == none_t or rb.dominates(none_t, v):
+                continue
+            # towards an error return only?
+            reach = rb.reach_from(v) | {v}
+            if any(o in reach for o in ok_blocks):
+                bad.append((u, v))
+    R.check(not bad, rule, "read_body:loop-exits-at-end-of-stream", "the body is read until the stream ends (the only non-error loop exit is frame() == None)", "read_body can stop reading before the stream ends (loop exit at %s): a request split into several chunks is truncated" % ["%s:%d" % (rb.file, block_line(rb, u)) for u, v in bad], "%s:%d" % (rb.file, block_line(rb, bad[0][0]) if bad else rb.lo))
